@@ -632,6 +632,11 @@ impl<'a> Ctx<'a> {
 
 pub fn sweep(job: &Job, out: &mut Out) {
     let thorough = job.tier != "quick";
+    // a conflicting re-acquisition of a node lock inside the deserialiser is
+    // reported as a self-deadlock instead of hanging the worker
+    if job.flavour.starts_with("sync_") {
+        ensure_monitor();
+    }
     unsafe {
         let lim = libc::rlimit { rlim_cur: 4 << 30, rlim_max: 4 << 30 };
         libc::setrlimit(libc::RLIMIT_AS, &lim);
@@ -714,6 +719,9 @@ pub fn replay(prop: &str, case: &Value) -> Vec<Violation> {
     if case["kind"] == "docsweep" {
         // coarse unit (after a crash / hang): rerun the shard in this process
         return vec![];
+    }
+    if flavour.starts_with("sync_") {
+        ensure_monitor();
     }
     let strkeys = case["strkeys"].as_bool().unwrap();
     let json = case["json"].as_bool().unwrap();
